@@ -20,8 +20,9 @@
    and, for user supplied hello extensions, psCopyHelloExtension()
    (matrixssl/tls.c:1035/1039, reached from matrixSslEncodeClientHello and
    tls13WriteClientHello via ssl->userExt = psMalloc(...) at tls.c:1067):
-   extData / next are written without a check. The call is made with an
-   expected name and an SNI extension, failing each of its allocations once.
+   extData / next are written without a check. The call is made once with an
+   expected name only (case B) and once with an SNI extension only (case D),
+   failing each of its allocations once.
 
    Case C - tls13NewPsk() (matrixssl/tls13Psk.c:93/99), reached from
    matrixSslLoadTls13Psk() and, when a session is created, from
@@ -80,6 +81,7 @@ static int scenario(long k)
     return bad;
 }
 
+static int useName = 1, useExt = 1, useTls13 = 0;
 static int scenarioNewClient(long k)
 {
     sslKeys_t *ck = NULL;
@@ -99,10 +101,12 @@ static int scenarioNewClient(long k)
     if (matrixSslCreateSNIext(NULL, (unsigned char *) "localhost", 9, &e, &el) < 0) return 0;
     if (matrixSslLoadHelloExtension(ext, e, el, EXT_SNI) < 0) return 0;
     psFree(e, NULL);
-    co.versionFlag = SSL_FLAGS_TLS_1_2;
+    co.versionFlag = useTls13 ? SSL_FLAGS_TLS_1_3 : SSL_FLAGS_TLS_1_2;
+    if (useTls13) cipher = TLS_AES_128_GCM_SHA256;
 
     fi_fail_at = k; fi_count = 0; fi_fired = 0; fi_armed = 1;
-    rc = matrixSslNewClientSession(&ssl, ck, NULL, &cipher, 1, certCb, "localhost", ext, NULL, &co);
+    rc = matrixSslNewClientSession(&ssl, ck, NULL, &cipher, 1, certCb, useName ? "localhost" : NULL, useExt ? ext : NULL, NULL, &co);
+    if (k < 0 && rc < 0) printf("demo2: baseline matrixSslNewClientSession failed?! %d\n", rc);
     fi_armed = 0;
     if (rc >= 0) matrixSslDeleteSession(ssl);
     matrixSslDeleteHelloExtension(ext);
@@ -143,27 +147,55 @@ static int scenarioLoadPsk(long k)
     return 0;
 }
 
-int main(void)
+#define WANT(c) (argc < 2 || strchr(argv[1], (c)))
+int main(int argc, char **argv)
 {
     long n;
     int bad = 0, b;
     setvbuf(stdout, NULL, _IOLBF, 0);
+    if (WANT('A')) {
     n = dc_count(scenario);
     printf("demo2 case A: TLS 1.2 handshake with DC= certificates makes %ld allocations; failing each one in turn\n", n);
     b = dc_run_forked("handshake with a peer certificate carrying domainComponent attributes", scenario, 1, n);
     printf("demo2 case A: %d of %ld single faults ended in a crash instead of an error return / alert\n", b, n);
+    if (!b) printf("OK: demo2 case A\n");
     bad += b;
-
+    }
+    if (WANT('B')) {
+    useName = 1; useExt = 0;
     n = dc_count(scenarioNewClient);
-    printf("demo2 case B: matrixSslNewClientSession(expectedName, SNI extension) makes %ld allocations\n", n);
-    b = dc_run_forked("matrixSslNewClientSession with an expected name and a hello extension", scenarioNewClient, 1, n);
+    printf("demo2 case B: matrixSslNewClientSession(expectedName, no extensions) makes %ld allocations\n", n);
+    b = dc_run_forked("matrixSslNewClientSession with an expected name", scenarioNewClient, 1, n);
     printf("demo2 case B: %d of %ld single faults ended in a crash instead of PS_MEM_FAIL\n", b, n);
+    if (!b) printf("OK: demo2 case B\n");
     bad += b;
-
+    }
+    if (WANT('D')) {
+    useName = 0; useExt = 1;
+    n = dc_count(scenarioNewClient);
+    printf("demo2 case D: matrixSslNewClientSession(no name, SNI hello extension) makes %ld allocations\n", n);
+    b = dc_run_forked("matrixSslNewClientSession with a user hello extension", scenarioNewClient, 1, n);
+    printf("demo2 case D: %d of %ld single faults ended in a crash instead of PS_MEM_FAIL\n", b, n);
+    if (!b) printf("OK: demo2 case D\n");
+    bad += b;
+    }
+    if (WANT('E')) {
+    useName = 0; useExt = 1; useTls13 = 1;
+    n = dc_count(scenarioNewClient);
+    printf("demo2 case E: TLS 1.3 matrixSslNewClientSession(no name, SNI hello extension) makes %ld allocations\n", n);
+    b = dc_run_forked("TLS 1.3 matrixSslNewClientSession with a user hello extension", scenarioNewClient, 1, n > 40 ? 40 : n);
+    printf("demo2 case E: %d of the first %ld single faults ended in a crash instead of PS_MEM_FAIL\n", b, n > 40 ? 40 : n);
+    if (!b) printf("OK: demo2 case E\n");
+    bad += b;
+    useTls13 = 0;
+    }
+    if (WANT('C')) {
     n = dc_count(scenarioLoadPsk);
     printf("demo2 case C: matrixSslLoadTls13Psk(params with sni and alpn) makes %ld allocations\n", n);
     b = dc_run_forked("matrixSslLoadTls13Psk with session parameters carrying sni/alpn", scenarioLoadPsk, 1, n);
     printf("demo2 case C: %d of %ld single faults ended in a crash instead of PS_MEM_FAIL\n", b, n);
+    if (!b) printf("OK: demo2 case C\n");
     bad += b;
+    }
     return bad ? 1 : 0;
 }
